@@ -28,7 +28,7 @@ ENGINES = [
      "serves_properties": ["C13"],
      "kind_free_text": "ITU-T T.81 Annex C/F/H lossless process (Huffman tables, DECODE/EXTEND, predictors, edge rules, stuffing, "
                        "SOF3/DHT/SOS grammar) as TLA+; reference encoder generates streams by simulation; trace validation both ways"},
-    {"name": "markers", "path": "spec/Markers.tla spec/PacketHeader.tla spec/MarkersTrace.tla spec/MQ.tla spec/MC_MQ.tla spec/MqTrace.tla",
+    {"name": "markers", "path": "spec/Markers.tla spec/PacketHeader.tla spec/J2kEnc.tla spec/J2kGen.tla spec/MarkersTrace.tla spec/MQ.tla spec/MC_MQ.tla spec/MqTrace.tla",
      "serves_properties": ["C16", "C20"],
      "kind_free_text": "T.81 B / T.87 C / T.800 A marker-segment grammars as a TLA+ walker; T.800 Annex C MQ coder machine; "
                        "TLC validates every stream the encoders emit and every MQ register trajectory"},
